@@ -695,8 +695,8 @@ fn c30_part(o: &Opts, out: &mut Out, run: &mut u64, known: bool) {
                 for target in 0..4u16 {
                     let is_known = kind == "CALL" && target >= 2;
                     if is_known != known { continue; }
-                    // quick tier: two of the four known shapes (script -> stored outsider, contract -> unknown id)
-                    if known && !thorough && (in_contract != (target == 3)) { continue; }
+                    // quick tier: three of the four known shapes (script -> stored outsider, contract -> stored outsider, contract -> unknown id)
+                    if known && !thorough && !in_contract && target == 3 { continue; }
                     k += 1;
                     c30_one(o, out, run, &mut rng, k, (kind, target), in_contract, if rep % 2 == 0 { 2 } else { 4 }, if known { "c30call" } else { "c30" });
                 }
